@@ -123,7 +123,7 @@ def _pack(fmt, vals):
                 if not lo <= int(v) <= hi:
                     raise _struct.error("'%s' format requires %d <= number <= %d" % (ch, lo, hi))
             else:
-                raise _struct.error("required argument is not an integer")
+                raise _struct.error("required argument is not an integer: %r (%s) for %r" % (v, type(v).__name__, fmt))
             fields.append(Field(w, v, "i", endian))
         elif ch in "fd":
             fields.append(Field(w, v, ch, endian))
